@@ -59,10 +59,16 @@ impl MultiPattern {
                 .map_or(true, |last| {
                     // appending to the text can only narrow the previous matches if the
                     // last atom keeps its meaning: a trailing `$` stops being a postfix/exact
-                    // marker and a trailing `\` becomes an escape for the appended character
+                    // marker, a trailing `\` becomes an escape for the appended character and
+                    // a trailing `\$` (needle ending in a literal `$`) is only an escape while
+                    // it is at the very end of the atom
                     !last.negative
                         && !matches!(last.kind, AtomKind::Postfix | AtomKind::Exact)
-                        && !last.needle_text().chars().last().is_some_and(|c| c == '\\')
+                        && !last
+                            .needle_text()
+                            .chars()
+                            .last()
+                            .is_some_and(|c| c == '\\' || c == '$')
                 })
         {
             self.cols[column].1 = Status::Update;
